@@ -67,23 +67,39 @@ func c40Gen(rng *rand.Rand, tier string) *gosim.Plan {
 	nNot := 1 + rng.Intn(4)
 	nCli := 1 + rng.Intn(3)
 	nPhase := 2 + rng.Intn(4)
+	// few keys per run, so that several notifiers meet on one key (a key that
+	// already has a subscriber behaves differently from a fresh one)
+	nKeys := 1 + rng.Intn(3)
+	keys := rng.Perm(len(c40Keys))[:nKeys]
+	key := func() int64 { return int64(keys[rng.Intn(nKeys)]) }
 	msg := int64(0)
 	for ph := 0; ph < nPhase; ph++ {
-		n := 1 + rng.Intn(6)
+		n := 1 + rng.Intn(8)
 		for i := 0; i < n; i++ {
 			c := int64(rng.Intn(nCli))
 			switch x := rng.Intn(10); {
 			case x < 3:
-				p.Ops = append(p.Ops, gosim.Op{K: "sub", A: []int64{c, int64(rng.Intn(nNot)), int64(rng.Intn(len(c40Keys)))}})
+				p.Ops = append(p.Ops, gosim.Op{K: "sub", A: []int64{c, int64(rng.Intn(nNot)), key()}})
 			case x < 5:
 				p.Ops = append(p.Ops, gosim.Op{K: "unsub", A: []int64{c, int64(rng.Intn(nNot))}})
+			case x < 6:
+				// subscribe and leave at once: the removal is queued right behind the subscription
+				nn := int64(rng.Intn(nNot))
+				p.Ops = append(p.Ops, gosim.Op{K: "sub", A: []int64{c, nn, key()}}, gosim.Op{K: "unsub", A: []int64{c, nn}})
 			default:
 				msg++
-				p.Ops = append(p.Ops, gosim.Op{K: "pub", A: []int64{c, int64(rng.Intn(len(c40Keys))), msg}})
+				p.Ops = append(p.Ops, gosim.Op{K: "pub", A: []int64{c, key(), msg}})
 			}
 		}
 		p.Ops = append(p.Ops, gosim.Op{K: "barrier"})
 	}
+	// a last phase publishing on every key of the run: whoever is wrongly still
+	// registered, or wrongly missing, shows
+	for _, k := range keys {
+		msg++
+		p.Ops = append(p.Ops, gosim.Op{K: "pub", A: []int64{0, int64(k), msg}})
+	}
+	p.Ops = append(p.Ops, gosim.Op{K: "barrier"})
 	p.Params["notifiers"] = int64(nNot)
 	return p
 }
@@ -210,6 +226,21 @@ func c40Exec(r *gosim.Run) {
 			r.Count("probe_checked_after_leave")
 			r.Violate("after-leave", "notifier %d left in phase %d (system quiesced since) but received message %d published in phase %d under %s",
 				nt.notifier, up, nt.msg, p.phase, nt.key)
+		}
+	}
+	// (1b) a message is delivered to a notifier under a key at most as often as the
+	// notifier subscribed to that key
+	subCount := map[string]int{}
+	for _, sb := range subs {
+		subCount[fmt.Sprintf("%d/%s", sb.n, sb.key)]++
+	}
+	got := map[string]int{}
+	for _, nt := range notes {
+		k := fmt.Sprintf("%d/%s/%d", nt.notifier, nt.key, nt.msg)
+		got[k]++
+		if got[k] > subCount[fmt.Sprintf("%d/%s", nt.notifier, nt.key)] {
+			r.Violate("duplicate", "notifier %d received message %d under key %s %d times but subscribed to that key %d time(s)",
+				nt.notifier, nt.msg, nt.key, got[k], subCount[fmt.Sprintf("%d/%s", nt.notifier, nt.key)])
 		}
 	}
 	// (2) every later message is delivered
